@@ -1,7 +1,7 @@
 (* C16 - GCC target bitrate stays finite, within bounds, and consistent.
    Decision layer; every float stage is an arbitrary integer oracle (the [raw]
    arguments of the ops), so the theorems cover NaN/Inf/overflowing conversions. *)
-From IV Require Import Base.Word Model.GccDecision Proofs.GccDecisionProofs.
+From IV Require Import Base.Word Model.GccDecision Proofs.GccDecisionProofs Generated.GoCores Proofs.GeneratedEq.
 
 (* For every configuration min <= initial <= max, every sequence of delay-statistics
    and loss updates and every value the float stages may produce: the published
@@ -57,3 +57,10 @@ Print Assumptions C16_prefix_refuted.
 Example C16_bounds_nonvacuous : 5000 <= 50000000 /\ 5000 <= 10000 <= 50000000.
 Proof. split; [|split]; discriminate. Qed.
 Print Assumptions C16_bounds_nonvacuous.
+
+(* clampInt and state.transition of the model ARE what tools/go2coq derives from pkg/gcc/gcc.go
+   and pkg/gcc/state.go on this run *)
+Theorem C16_clamp_and_transition_are_source : forall a b c,
+  g_gcc_clampInt a b c = clampInt a b c /\ g_gcc_state_transition a b = transition a b.
+Proof. intros a b c. split; [exact (gen_clampInt_eq a b c)|exact (gen_transition_eq a b)]. Qed.
+Print Assumptions C16_clamp_and_transition_are_source.
